@@ -80,6 +80,8 @@ var profiles = map[string]Profile{
 	"pose":   {"updatePose": 4, "entityAdd": 2, "entityDelete": 2, "join": 1.5},
 	"comp":   {"compAdd": 3, "compUpdate": 3, "compDelete": 3, "subscribe": 3, "unsubscribe": 3, "typeAdd": 2, "compList": 3, "entityDelete": 2},
 	"custom": {"custom": 8},
+	// a session of more than 64 participants: addressed relays with repeated recipients, departures, arrivals
+	"crowd": {"custom": 10, "join": 0.3, "entityAdd": 0.5},
 	"join":   {"join": 5, "entityAdd": 1.5},
 	"module": {"action": 4, "assetAdd": 4, "entityDelete": 2, "join": 2, "quadSample": 3, "groundPlane": 3, "region": 3, "debugInfo": 2},
 	"latency": {"signedLatency": 8, "pingResp": 14, "ping": 3},
@@ -87,6 +89,7 @@ var profiles = map[string]Profile{
 }
 
 type Gen struct {
+	crowd   bool
 	noProbe bool
 	rnd     *rand.Rand
 	w       *World
@@ -102,6 +105,10 @@ type Gen struct {
 
 func NewGen(rnd *rand.Rand, w *World, prof string, nconn int) *Gen {
 	g := &Gen{rnd: rnd, w: w, prof: profiles[prof], nconn: nconn, pending: map[int]int{}, ots: 100}
+	if prof == "crowd" {
+		g.crowd = true
+		g.nconn = 65 + rnd.Intn(6)
+	}
 	total := 0.0
 	for k := range baseWeights {
 		g.kinds = append(g.kinds, k)
@@ -195,7 +202,7 @@ func (g *Gen) smallBytes() []byte {
 	return b
 }
 
-var names = []string{"", "a", "b", "pose", "health", "x", "colour"}
+var names = []string{"", "a", "b", "pose", "health", "x", "colour", "a ", " a", "mesh v2", "mesh v2 "}
 
 func (g *Gen) name() string { return names[g.rnd.Intn(len(names))] }
 
@@ -290,6 +297,9 @@ func (g *Gen) RequestOf(c int, forceKind string) *wire.Req {
 			r.Target, r.TargetN = "id", uint32(len(live)+1+g.rnd.Intn(5))
 		default:
 			r.Target = "bogus"
+			if len(live) > 0 && g.rnd.Intn(2) == 0 {
+				r.Target, r.N1, r.TargetN = "near", uint32(g.rnd.Intn(5)), uint32(live[g.rnd.Intn(len(live))])
+			}
 		}
 	case "entityAdd":
 		r.Persist = g.rnd.Intn(5) < 2
@@ -305,6 +315,11 @@ func (g *Gen) RequestOf(c int, forceKind string) *wire.Req {
 			n := 1 + g.rnd.Intn(5)
 			for i := 0; i < n; i++ {
 				r.Pids = append(r.Pids, g.small(maxP))
+			}
+			if g.crowd { // some recipients named several times
+				for i := 0; i < n; i++ {
+					r.Pids = append(r.Pids, r.Pids[g.rnd.Intn(len(r.Pids))])
+				}
 			}
 		}
 		r.Data = g.bytes()
@@ -426,6 +441,16 @@ func (g *Gen) Run(steps int) {
 		g.w.Connect(i)
 	}
 	g.nextCon = g.nconn + 1
+	if g.crowd {
+		r := g.RequestOf(1, "join")
+		r.Target, r.TargetN = "new", 0
+		g.do(1, r)
+		for c := 2; c <= g.nconn; c++ {
+			r := g.RequestOf(c, "join")
+			r.Target, r.TargetN = "id", 1
+			g.do(c, r)
+		}
+	}
 	for i := 0; i < steps; i++ {
 		live := g.liveConns()
 		if len(live) == 0 || (len(live) < g.nconn && g.rnd.Intn(4) == 0) {
